@@ -22,6 +22,8 @@ def run(ctx):
     sf, sc_, sl = charfam.run_sequences(ctx, charfam.collision_sequences(), "c02")
     files, cells, leaves = files + sf, cells + sc_, leaves + sl
     verdicts, decided = charfam.validate(ctx, files)
+    if decided < max(5, cells // 4) and not ctx.violations:
+        raise vlib.Undecided("only %d of %d cells gave an exact distribution (the scripted source no longer drives the generator?)" % (decided, cells))
     ctx.evaluations = leaves
     ctx.nontrivial = decided
     ctx.cover.update(cells=cells, leaves=leaves, cells_with_exact_distribution=decided, universe_size=len(uni))
